@@ -53,6 +53,41 @@ class _LinkWalker(lib_exec.ExecWalker):
                 st.events.append(('link', cls, fn.loc(n)))
 
 
+class _BatchWalker(lib_exec.ExecWalker):
+    def on_node(self, fn, n, st):
+        super().on_node(fn, n, st)
+        if n['k'] == 'CXXMemberCallExpr' and n.get('cn', '').split('::')[-1] == 'exchange' and n.get('obj') is not None:
+            o = fn.sn(n['obj'])
+            while o is not None and o['k'] == 'ImplicitCastExpr' and o.get('ch'):
+                o = fn.sn(o['ch'][0])
+            if o is not None and o.get('dn', '').endswith('::_jobs'):
+                st.events.append(('take', fn.loc(n)))
+
+
+def check_one_batch(ctx, fb, rule):
+    """Strand::Call takes one batch per invocation: whatever was pushed while the batch ran goes through a new
+    submission of the strand to the underlying executor — the only place where a strand notices that its executor was
+    stopped (the jobs are then Dropped, not Called) and where other work of that executor gets its turn."""
+    n = 0
+    for f in fb.fn.values():
+        if f.clsq != S or f.n != 'Call' or f.cfg is None:
+            continue
+        key = 'R-STRAND.one-batch Strand::Call'
+        w = _BatchWalker(fb, S)
+        w.loop_bound = 1
+        res = w.run(f)
+        n += 1
+        ctx.instance(rule, key, dict(paths=len(res)))
+        for st, _ in res:
+            takes = [e for e in st.events if e[0] == 'take']
+            if len(takes) > 1:
+                ctx.report(rule, key, takes[1][1], 'one invocation of Strand::Call detaches a second batch without '
+                           'having gone through the underlying executor: jobs handed to the strand after that executor '
+                           'was stopped are Called instead of Dropped (and the strand keeps the worker)')
+                break
+    return n
+
+
 def run(ctx):
     fbs = ctx.facts(['K17', 'KF'], kinds=('lib',), only=r'src/exe/strand\.cpp$')
     rw = ctx.rule('R-WORD', 'every operation on Strand::_jobs is a role of its protocol', minimum=6)
@@ -70,7 +105,11 @@ def run(ctx):
                    'and to nullptr exactly when it is the idle marker', minimum=1)
     rcf = ctx.rule('R-CASFRESH', 'every retry of a compare-exchange re-tests the refreshed expected value against the '
                    'sentinels the first attempt tested', minimum=0)
+    rob = ctx.rule('R-STRAND.one-batch', 'Strand::Call detaches one batch per invocation; later arrivals go through a new '
+                   'submission to the underlying executor', minimum=1)
     for cfg, fb in sorted(fbs.items()):
+        if (ctx.guard(lambda: check_one_batch(ctx, fb, rob)) or 0) < 1:
+            ctx.guard(lambda: ctx.broken('R-STRAND.one-batch: Strand::Call not found'))
         ctx.guard(lambda: lib_order.check_cas_fresh(ctx, fb, rcf, lambda f: f.clsq == S))
         ctx.guard(lambda: lib_shape.check(ctx, fb, rsh, lambda qn: 'Strand' in qn, 2))
         if cfg == 'K17':
